@@ -24,7 +24,7 @@ demo_run mutant; dm=$?
 echo "[$id] demo pristine rc=$dp (want 0), suite on mutant rc=$suite (want 0), demo on mutant rc=$dm (want !=0)"
 declare -A out
 for c in "$@"; do
-  (cd /verif && VERIF_REPO=$wt VERIF_CPUS=${VERIF_CPUS:-8} timeout 1500 ./check $c quick > $res/check_$c.log 2>&1); out[$c]=$?
+  (cd /verif && VERIF_OUT=/tmp/evo_$id VERIF_REPO=$wt VERIF_CPUS=${VERIF_CPUS:-8} timeout 1500 ./check $c quick > $res/check_$c.log 2>&1); out[$c]=$?
   echo "[$id] check $c quick on mutant: rc=${out[$c]} $(grep -c '^VIOLATION' $res/check_$c.log) violation lines; $(grep -m1 'condition' $res/check_$c.log)"
 done
 python3 - "$id" "$dp" "$suite" "$dm" "$@" <<PY
@@ -49,4 +49,4 @@ old.update(meta)
 json.dump(old,open(p,'w'),indent=1)
 PY
 git -C /repo worktree remove --force $wt
-true
+rm -rf /tmp/evo_$id
